@@ -607,6 +607,7 @@ func TestDrive_C16(t *testing.T) {
 func TestDrive_C17(t *testing.T) {
 	pf := execProfile{name: "C17", kinds: allKinds, maxDepth: 5, extPct: 10, coopPct: 40, maxReqs: 4, withExec: true, hedgePct: 35}
 	driveExec(t, "C17", pf, 400, 12000, "random stacks and histories as for C01 through the entry points that hand an Execution to the function, so that counters are read inside the function as well as in every listener. "+execRule, nil)
+	driveC17Probes(t)
 }
 
 // durations placed around the limits of the timeouts in the stack: far below, just below, just above, far above
